@@ -73,6 +73,15 @@ def nat(draw, maxbits=4200):
 
 
 @st.composite
+def word_sized(draw):
+    """Values that just fit / just overflow a C int, long or limb (31..33 and 63..65 bits), where a native fast path for 'small' operands
+    would change behaviour; results near the top of the range (>= 2^31, >= 2^63) included."""
+    bits = draw(st.sampled_from([31, 32, 32, 32, 33, 63, 64, 64, 65]))
+    v = draw(st.one_of(st.integers(1 << (bits - 1), (1 << bits) - 1), st.integers(1, 4).map(lambda d: (1 << bits) - d), st.just(1 << (bits - 1))))
+    return -v if draw(st.integers(0, 5)) == 0 else v
+
+
+@st.composite
 def integer(draw, maxbits=4200):
     v = draw(nat(maxbits))
     if draw(st.integers(0, 3)) == 0:
@@ -256,11 +265,18 @@ def compare(opname, backend, expected, thunk, rec, feat, case):
 # ------------------------------------------------------------------ arithmetic check
 @st.composite
 def strat_arith(draw, tier):
-    group = draw(st.sampled_from(["bin", "bin", "bin", "inplace", "un", "un-sqrt", "shift", "powmod", "powmod", "bytes",
+    group = draw(st.sampled_from(["bin", "bin", "bin", "bin-word", "inplace", "un", "un-sqrt", "shift", "powmod", "powmod", "bytes",
                                   "jacobi", "sqrtmod", "misc", "mmb"]))
     c = {"backend": draw(st.sampled_from(BACKENDS)), "group": group, "b_as_int": draw(st.booleans()),
          "alias": False}
-    if group == "bin":
+    if group == "bin-word":
+        # every binary operator with a divisor / second operand that just fits (or just overflows) a machine word, as int and as Integer,
+        # and a first operand of any size: where fast paths for "small" native operands live
+        c["group"] = "bin"
+        c["op"] = draw(st.sampled_from([o for o in sorted(BINOPS) if o not in ("pow2", "inverse")]))
+        c["a"] = draw(st.one_of(integer(), word_sized()))
+        c["b"] = draw(word_sized())
+    elif group == "bin":
         c["op"] = draw(st.sampled_from(sorted(BINOPS)))
         if c["op"] == "pow2":
             c["a"] = draw(integer(200))
@@ -270,12 +286,14 @@ def strat_arith(draw, tier):
             c["b"] = draw(st.one_of(integer(2100), st.sampled_from([0, 1, 2, -5])))
         else:
             c["a"] = draw(integer())
-            c["b"] = draw(st.one_of(integer(), st.just(c["a"]), st.sampled_from([0, 1, -1])))
+            c["b"] = draw(st.one_of(integer(), st.just(c["a"]), st.sampled_from([0, 1, -1]), word_sized(), word_sized()))
+            if draw(st.integers(0, 5)) == 0:
+                c["a"] = draw(word_sized())
     elif group == "inplace":
         c["op"] = draw(st.sampled_from(sorted(INPLACE)))
         c["a"] = draw(integer(2100))
         c["alias"] = draw(st.integers(0, 3)) == 0
-        c["b"] = c["a"] if c["alias"] else draw(st.one_of(integer(2100), st.sampled_from([0, 1, -1])))
+        c["b"] = c["a"] if c["alias"] else draw(st.one_of(integer(2100), st.sampled_from([0, 1, -1]), word_sized()))
     elif group in ("un", "un-sqrt"):
         c["op"] = draw(st.sampled_from((sorted(UNOPS) + ["sqrt", "is_perfect_square"]) if group == "un" else ["sqrt", "sqrt", "is_perfect_square"]))
         c["group"] = "un"
